@@ -43,10 +43,17 @@ def mkspec(W, depth, names, exprs, leaves, pats):
                              ('Expr', 'EIf', 'cond'): lambda sp, ex, d, p: mkbox(Agg(EXPR_KEY[0], EXPR_IDX['EBool'], [True, sp.overrides['MySyntaxNodePtr'](sp, ex, None, d, p)])),
                              ('Expr', 'EIf', 'then_branch'): lambda sp, ex, d, p: mkbox(block_of(sp, ex, d, p)),
                              ('Expr', 'EIf', 'else_branch'): lambda sp, ex, d, p: mkbox(Agg(EXPR_KEY[0], EXPR_IDX['EBlock'], [PyVec([Agg(EXPR_KEY[0], EXPR_IDX['EInt'], [mkstr('0'), sp.overrides['MySyntaxNodePtr'](sp, ex, None, d, p)])]), sp.overrides['MySyntaxNodePtr'](sp, ex, None, d, p)])),
+                             ('Expr', 'EWhile', 'cond'): lambda sp, ex, d, p: mkbox(Agg(EXPR_KEY[0], EXPR_IDX['EBool'], [True, sp.overrides['MySyntaxNodePtr'](sp, ex, None, d, p)])),
+                             ('Expr', 'EWhile', 'body'): lambda sp, ex, d, p: mkbox(block_of(sp, ex, d, p)),
+                             ('Pat', 'PTuple', 'pats'): lambda sp, ex, d, p: PyVec([sp.make_adt(ex, sp.tt.find_adt(['ast', 'ast', 'Pat'], 'ast'), 0, p + '.p%d' % i, {}) for i in range(2)]),
                              ('Expr', 'EMatch', 'expr'): lambda sp, ex, d, p: mkbox(Agg(EXPR_KEY[0], EXPR_IDX['EPath'], [sp.overrides['Path'](sp, ex, None, d, p), sp.overrides['MySyntaxNodePtr'](sp, ex, None, d, p)])),
                              ('Expr', 'EClosure', 'body'): lambda sp, ex, d, p: mkbox(block_or_expr(sp, ex, d, p)),
                              ('Arm', 'Arm', 'body'): lambda sp, ex, d, p: block_or_expr(sp, ex, d, p),
                              ('Expr', 'EBlock', 'exprs'): lambda sp, ex, d, p: PyVec([sp.make_adt(ex, sp.tt.find_adt(['ast', 'ast', 'Expr'], 'ast'), d, p + '[%d]' % i, {}) for i in range(2)])})
+    if 'PTuple' in pats:      # patterns sit at depth 0 of their let / arm: give them one level so that a tuple pattern (of two leaf patterns) can be chosen
+        PATA = W.tt.find_adt(['ast', 'ast', 'Pat'], 'ast')
+        sp.field_hooks[('Expr', 'ELet', 'pat')] = lambda sp_, ex, d, p: sp_.make_adt(ex, PATA, 1, p + '.pat', {})
+        sp.field_hooks[('Arm', 'Arm', 'pat')] = lambda sp_, ex, d, p: sp_.make_adt(ex, PATA, 1, p + '.pat', {})
     sp.exprs_full = exprs; sp.leaves0 = leaves
     return sp
 
@@ -101,6 +108,8 @@ class Oracle:
             for prm in f['params'].items: sc.append((s.ident(prm.fields[0]), prm.fields[2].n))
             s.expr(f['body'], sc)
         elif n == 'EBinary': s.expr(f['lhs'], scope); s.expr(f['rhs'], scope)
+        elif n == 'EWhile': s.expr(f['cond'], scope); s.expr(f['body'], scope)      # the body is an EBlock -> own scope
+        elif n == 'EGo': s.expr(f['expr'], scope)
         elif n == 'ETuple':
             for x in f['items'].items: s.expr(x, scope)
         elif n == 'ECall':
@@ -134,6 +143,7 @@ def render(EX, PT, e, ind=0, top=False):
     if n == 'EMatch': return 'match %s { %s }' % (R(f['expr']), ', '.join('%s => %s' % (pat(a.fields[0]), R(a.fields[1])) for a in f['arms'].items))
     if n == 'EClosure': return '|%s| %s' % (', '.join(ms.pystr(p.fields[0].fields[0]) for p in f['params'].items), R(f['body']))
     if n == 'EBinary': return '(%s + %s)' % (R(f['lhs']), R(f['rhs']))
+    if n == 'EWhile': return 'while %s %s' % (R(f['cond']), R(f['body']))
     if n == 'ETuple': return '(' + ', '.join(R(x) for x in f['items'].items) + ',)' if len(f['items'].items) == 1 else '(' + ', '.join(R(x) for x in f['items'].items) + ')'
     if n == 'ECall': return '%s(%s)' % (R(f['func']), ', '.join(R(x) for x in f['args'].items))
     raise Unsupported('render ' + n)
@@ -258,6 +268,8 @@ def obligations():
            dict(depth=1, names=('x', 'y'), exprs=['EPath', 'EMatch', 'ELet'], leaves=['EPath', 'EInt'], pats=['PVar', 'PWild'], top='{ E; use }', second_depth=-1, arms=2, plain_bodies=True)),
         Ob('O5.1-globals', 'resolver: a local binder wins over a top-level definition / builtin of the same name', ob_resolve, ('quick', 'thorough'), 5,
            dict(depth=1, names=('x', 'y'), exprs=['EPath', 'ELet', 'EMatch', 'EClosure', 'ECall'], leaves=['EPath', 'EInt'], pats=['PVar', 'PWild'], top='{ E; use }', second_depth=-1, globals_=True, plain_bodies=True)),
+        Ob('O5.1-d1-while-tuplepat', 'resolver vs lexical scoping rule: while bodies, nested blocks and tuple patterns in let / match', ob_resolve, ('quick', 'thorough'), 5,
+           dict(depth=1, names=('x', 'y'), exprs=['EPath', 'ELet', 'EWhile', 'EBlock'], leaves=['EPath', 'EInt'], pats=['PVar', 'PWild', 'PTuple'], top='{ E; use }', second_depth=-1)),
         Ob('O5.1-d1-d0', 'resolver vs lexical scoping rule: { E; E0 } with E of depth 1 and E0 a leaf or let', ob_resolve, ('thorough',), 20,
            dict(depth=1, names=('x', 'y'), exprs=E1, leaves=['EPath', 'EInt'], pats=['PVar', 'PWild'], top='{ E; E0 }', second_depth=0)),
         Ob('O5.1-d2-use', 'resolver vs lexical scoping rule: { E; use } with E of depth 2 over scope-forming constructors', ob_resolve, ('thorough',), 100,
